@@ -15,6 +15,7 @@ from exabgp.bgp.message.notification import Notify
 from exabgp.bgp.message.update.attribute.sr.srv6.l2service import Srv6L2Service
 from exabgp.bgp.message.update.attribute.sr.srv6.l3service import Srv6L3Service
 from exabgp.bgp.message.update.attribute.sr.srv6.generic import GenericSrv6ServiceDataSubSubTlv
+from exabgp.util import json_members
 from exabgp.util.types import Buffer
 
 
@@ -148,7 +149,7 @@ class Srv6SidInformation:
         # event a line no JSON parser accepts, so the unknown ones go in a list of their own
         known = [_ for _ in self.subsubtlvs if not isinstance(_, GenericSrv6ServiceDataSubSubTlv)]
         unknown = [_ for _ in self.subsubtlvs if isinstance(_, GenericSrv6ServiceDataSubSubTlv)]
-        content: str = ', '.join(subsubtlv.json() for subsubtlv in known)
+        content: str = json_members(subsubtlv.json() for subsubtlv in known)
         if content:
             s += ', {}'.format(content)
         if unknown:
